@@ -1,6 +1,7 @@
 ------------------------------ MODULE EGThickTri -----------------------------
-(* TRANSCRIBED: stroked (and filled) triangles with StrokeAlignment::Center,   *)
-(* i.e. StrokeOffset::None - the case EGLine!ExtentsT covers.                  *)
+(* TRANSCRIBED: stroked (and filled) triangles, all three stroke alignments    *)
+(* (al = 0 Inside -> StrokeOffset::Right, 1 Center -> None, 2 Outside -> Left; *)
+(* common/mod.rs:36-44), incl. the "collapsed" case of inside strokes.         *)
 (*   triangle/styled.rs:92-156            draw_styled, styled_bounding_box     *)
 (*   triangle/scanline_iterator.rs        rows of the styled box; the          *)
 (*                                        iteration ENDS at the first row that *)
@@ -9,16 +10,16 @@
 (*                                        merging), generate_lines (fill       *)
 (*                                        between the two stroke ranges)       *)
 (*   common/closed_thick_segment_iter.rs  the three segments of the box        *)
-(* Inside / Outside alignment (StrokeOffset::Right / Left, is_collapsed) are   *)
-(* not transcribed: the ParallelsIterator of EGLine has StrokeOffset::None.    *)
+(*   triangle/mod.rs:239-285              joins, is_collapsed                  *)
 (* Scanlines <<x0, x1>> half open as in EGThick.                               *)
 EXTENDS EGThick, EGTriangle
 
 V(t, k) == t[((k - 1) % 3) + 1]                      \* vertices, 1-based, cyclic
 \* the join at vertex k (between edge k-1 -> k and edge k -> k+1)
-TriJoinT(t, k, w) == JoinFromPointsT(V(t, k + 2), V(t, k), V(t, k + 1), w)
+OffOf(al) == CASE al = 0 -> "R" [] al = 1 -> "N" [] OTHER -> "L"
+TriJoinT(t, k, w, off) == JoinFromPointsT(V(t, k + 2), V(t, k), V(t, k + 1), w, off)
 \* edge_intersections (:78-127) visits the edges v2->v3, v3->v1, v1->v2 of the clockwise sorted triangle
-TriSegsT(t, w) == LET j == [k \in 1..3 |-> TriJoinT(t, k, w)] IN << <<j[2], j[3]>>, <<j[3], j[1]>>, <<j[1], j[2]>> >>
+TriSegsT(t, w, off) == LET j == [k \in 1..3 |-> TriJoinT(t, k, w, off)] IN << <<j[2], j[3]>>, <<j[3], j[1]>>, <<j[1], j[2]>> >>
 Hull2(a, b) == <<Min(a[1], b[1]), Max(a[2], b[2])>>
 RECURSIVE EdgeFold(_, _, _, _, _)
 EdgeFold(segs, i, y, left, right) ==
@@ -39,35 +40,45 @@ EdgeIntersectionsT(segs, w, y) ==
            r == IF merged THEN ScEmpty ELSE lr[2] IN
        (IF ScIsEmpty(l) THEN <<>> ELSE <<l>>) \o (IF ScIsEmpty(r) THEN <<>> ELSE <<r>>)
 \* generate_lines (:129-190), not collapsed: [fill, strokes]
-TriRowT(tc, segs, w, hasFill, y) ==
-  LET es == EdgeIntersectionsT(segs, w, y)
+\* Triangle::is_collapsed for the clockwise sorted triangle (mod.rs:253-285) and the guard of
+\* ScanlineIntersections::new (:45-47): an inside stroke that covers the whole interior
+IsCollapsedT(tc, w, off) ==
+  /\ w > 0 /\ off = "R"
+  /\ \E i \in 1..3 :
+       LET j == TriJoinT(tc, i, w, off) IN
+       \/ j.kind = "Degenerate"
+       \/ CheckSide(LinEq(ExtR(ExtentsO(V(tc, i + 1), V(tc, i + 2), w, off))), j.fee.r, "L")
+\* collapsed: the whole row of the triangle, typed Stroke (generate_lines :131-137)
+TriRowT(tc, segs, w, hasFill, y, collapsed) ==
+  LET es == IF collapsed THEN <<>> ELSE EdgeIntersectionsT(segs, w, y)
       tri == LET s == TriScanline(tc, y) IN <<s[2], s[3]>>
       fill == IF ~hasFill THEN ScEmpty
               ELSE IF Len(es) = 2 THEN <<Min(es[1][2], es[2][2]), Max(es[1][1], es[2][1])>>
               ELSE IF Len(es) = 0 THEN tri ELSE ScEmpty
-  IN [fill |-> fill, strokes |-> es]
+  IN IF collapsed THEN [fill |-> ScEmpty, strokes |-> IF ScIsEmpty(tri) THEN <<>> ELSE <<tri>>]
+     ELSE [fill |-> fill, strokes |-> es]
 RowIsEmpty(r) == ScIsEmpty(r.fill) /\ r.strokes = <<>>
 
-\* styled_bounding_box for Center alignment and stroke width >= 2 (styled.rs:130-156)
-TriThickBoxT(t, w) ==
+\* styled_bounding_box for Center / Outside alignment and stroke width >= 2 (styled.rs:130-156)
+TriThickBoxT(t, w, off) ==
   LET tc == SortedClockwise(t)
-      j == [k \in 1..3 |-> TriJoinT(tc, k, w)]
+      j == [k \in 1..3 |-> TriJoinT(tc, k, w, off)]
       segs == << <<j[1], j[2]>>, <<j[2], j[3]>>, <<j[3], j[1]>> >>          \* ClosedThickSegmentIter
   IN HullOfBoxes([i \in 1..3 |-> EdgesBoxT(segs[i], FALSE)], 1, <<>>)
 \* the rows draw_styled renders, in order, up to (excluding) the first row without any line
-RECURSIVE TriRowsFrom(_, _, _, _, _, _, _)
-TriRowsFrom(tc, segs, w, hasFill, y, yEnd, acc) ==
+RECURSIVE TriRowsFrom(_, _, _, _, _, _, _, _)
+TriRowsFrom(tc, segs, w, hasFill, y, yEnd, acc, col) ==
   IF y >= yEnd THEN acc
-  ELSE LET r == TriRowT(tc, segs, w, hasFill, y) IN
-       IF RowIsEmpty(r) THEN acc ELSE TriRowsFrom(tc, segs, w, hasFill, y + 1, yEnd, Append(acc, [y |-> y, fill |-> r.fill, strokes |-> r.strokes]))
+  ELSE LET r == TriRowT(tc, segs, w, hasFill, y, col) IN
+       IF RowIsEmpty(r) THEN acc ELSE TriRowsFrom(tc, segs, w, hasFill, y + 1, yEnd, Append(acc, [y |-> y, fill |-> r.fill, strokes |-> r.strokes]), col)
 \* styled.rs:131-134: stroke widths 0 and 1 use the triangle's own bounding box
-TriStyledBoxT(t, w) == IF w < 2 THEN TriBox(t) ELSE TriThickBoxT(t, w)
-TriThickRowsT(t, w, hasFill) ==
-  LET tc == SortedClockwise(t)  b == TriStyledBoxT(t, w) IN
-  TriRowsFrom(tc, TriSegsT(tc, w), w, hasFill, b[2], b[2] + b[4], <<>>)
+TriStyledBoxT(t, w, al) == IF w < 2 \/ al = 0 THEN TriBox(t) ELSE TriThickBoxT(t, w, OffOf(al))
+TriThickRowsT(t, w, hasFill, al) ==
+  LET tc == SortedClockwise(t)  b == TriStyledBoxT(t, w, al) IN
+  TriRowsFrom(tc, TriSegsT(tc, w, OffOf(al)), w, hasFill, b[2], b[2] + b[4], <<>>, IsCollapsedT(tc, w, OffOf(al)))
 \* every point that receives a colour: fill ranges if a fill colour is set, stroke ranges if the stroke is visible
-TriThickSetT(t, w, hasFill, hasStroke) ==
-  LET rows == TriThickRowsT(t, w, hasFill) IN
+TriThickSetT(t, w, hasFill, hasStroke, al) ==
+  LET rows == TriThickRowsT(t, w, hasFill, al) IN
   UNION { (IF hasFill THEN { <<x, rows[i].y>> : x \in rows[i].fill[1]..(rows[i].fill[2] - 1) } ELSE {})
           \cup (IF hasStroke THEN UNION { { <<x, rows[i].y>> : x \in rows[i].strokes[k][1]..(rows[i].strokes[k][2] - 1) } : k \in 1..Len(rows[i].strokes) } ELSE {})
           : i \in 1..Len(rows) }
